@@ -31,6 +31,8 @@ type Mutant struct {
 }
 
 type SelfTestResult struct {
+	Benign      int      `json:"benign_refactorings"`        // behaviour-preserving patches applied
+	FalseAlarms []string `json:"benign_raising_an_alarm"`    // … that made some obligation fail (must be empty)
 	Total    int      `json:"total"`
 	Killed   int      `json:"killed"`
 	Survived []string `json:"survived"`
@@ -210,10 +212,54 @@ func failingIDs(r *rep.Report) map[string]bool {
 	return out
 }
 
+// benignPatches lists the behaviour-preserving refactorings kept under refactors/.
+func benignPatches() []string {
+	ds, _ := filepath.Glob(filepath.Join(rep.VerifDir(), "refactors", "*", "patch.diff"))
+	sort.Strings(ds)
+	return ds
+}
+
 // SelfTest runs the catalogue of one property (or "all").
 func SelfTest(prop string, verbose bool) *SelfTestResult {
 	res := &SelfTestResult{}
 	base := map[string]map[string]bool{}
+	// behaviour-preserving refactorings must stay silent (checked for the requested property, or all)
+	var checkProps []string
+	if prop == "all" {
+		checkProps = Props()
+	} else {
+		checkProps = []string{prop}
+	}
+	for _, pid := range checkProps {
+		d := props[pid]
+		r0 := rep.New(pid, "selftest", d.level)
+		runOnce(pid, d, r0, "quick", nil, nil, "")
+		base[pid] = failingIDs(r0)
+	}
+	for _, pf := range benignPatches() {
+		id := filepath.Base(filepath.Dir(pf))
+		overlay, err := applyUnifiedDiff(load.RepoDir(), pf)
+		if err != nil {
+			res.Stale = append(res.Stale, id+": "+err.Error())
+			continue
+		}
+		res.Benign++
+		for _, pid := range checkProps {
+			d := props[pid]
+			// only properties whose analysed files are touched need re-running; cheap enough to run all
+			r := rep.New(pid, "selftest", d.level)
+			runOnce(pid, d, r, "quick", nil, overlay, "")
+			for _, o := range r.Obs {
+				if (o.Status == rep.Violated || o.Status == rep.Undecided) && !base[pid][o.ID+"|"+o.Detail] {
+					res.FalseAlarms = append(res.FalseAlarms, id+": "+pid+" "+o.Rule+" "+o.Construct)
+					break
+				}
+			}
+		}
+		if verbose {
+			fmt.Println(id + ": benign refactoring applied")
+		}
+	}
 	for _, m := range catalogue(prop) {
 		d, ok := props[m.Property]
 		if !ok {
